@@ -766,3 +766,60 @@ def value_equiv(k, text, printed):
     except ValueError:
         pass
     return False
+
+
+# ------------------------------------------------------------------------------------------------
+# second schema instance: the stock FIX44 schema (two-pass f8c), stream `codec44`
+
+_schema44 = None
+
+
+def schema44():
+    global _schema44
+    if _schema44 is None:
+        _schema44 = gen_facts.schema_fix44()
+    return _schema44
+
+
+def run_second_schema(res, lines, oracle, label='FIX44', stream='codec44'):
+    """run `lines` through the FIX44 build of the codec harness and the `codec44` driver stream; same verdict rules as
+    vlib.decide_stream (oracle failure -> concrete violation; model/impl difference with the oracle holding -> no-failing-input-found)"""
+    try:
+        exe = vlib.build_harness('codec', need_schema=True, schema=vlib.FIX44, extra_flags=vlib.FIX44_FLAGS)
+    except vlib.BuildError as e:
+        res.violation('codec harness for %s does not build\n%s' % (label, str(e)[-1500:]), 'correspondence harness for %s cannot be built from the current tree' % label, no_input=True)
+        return dict(evaluations=0)
+    impl, aborts = vlib.run_harness(exe, lines)
+    try:
+        model = vlib.run_driver(stream, lines)
+    except vlib.BuildError as e:
+        res.violation(str(e)[-1500:], 'model driver stream %s unavailable' % stream, no_input=True)
+        return dict(evaluations=0)
+    mism, concrete, unmod = [], 0, 0
+    for i, l in enumerate(lines):
+        ok, klass = oracle(l, impl[i])
+        if ok is False:
+            concrete += 1
+            if concrete <= 3:
+                res.violation(l, '%s: property oracle fails on the implementation: %s -> %s (model: %s)' % (label, l[:160], impl[i][:160], model[i][:160]))
+        elif 'UNMODELLED' in model[i]:
+            unmod += 1
+        elif impl[i] != model[i]:
+            mism.append(i)
+    if mism and not concrete:
+        i = mism[0]
+        res.violation('\n'.join(lines[j] for j in mism[:5]), '%s: model and implementation differ on %d of %d lines although the property oracle holds; first: %s -> impl %s / model %s'
+                      % (label, len(mism), len(lines), lines[i][:160], impl[i][:160], model[i][:160]), no_input=True)
+    return dict(evaluations=len(lines), mismatches=len(mism), oracle_failures=concrete, aborts=len(aborts), unmodelled_lines=unmod,
+                sample=dict(input=lines[0][:300], impl=impl[0][:300], model=model[0][:300]) if lines else None)
+
+
+def gen_message_capped(rng, sc, max_payload=7000, **kw):
+    """gen_message, retried with fewer optional fields until the encoded payload fits the encoder's buffer (larger messages are C03's known finding)"""
+    p = kw.pop('p_opt', None)
+    for attempt in range(30):
+        mt, items = gen_message(rng, sc, p_opt=p, **kw)
+        if payload_len(sc, mt, items) <= max_payload:
+            return mt, items
+        p = 0.3 if p is None or p > 0.3 else p / 2
+    return mt, [i for i in items if i.elems is None][:8]
